@@ -3,4 +3,4 @@ import gadgets
 
 
 def run(tier):
-    return gadgets.standard("C10", tier, mc=["logic"], weak=["weak_norange"], scen=["logic"])
+    return gadgets.standard("C10", tier, mc=["logic"], weak=["weak_norange"], scen=["logic", "logic-alias"])
